@@ -14,12 +14,13 @@ def cbytes(b):
     return "(" + " ++ ".join('hx "%s"' % h[i:i + 8192] for i in range(0, len(h), 8192)) + ")"
 
 
-IMPORTS = "Require Import V.lib.Serde V.lib.Msgpack V.model.Quote V.model.Header."
+IMPORTS = "Require Import V.lib.Serde V.lib.Msgpack V.lib.Cbor V.model.Quote V.model.Header V.model.Messages."
 THEOREMS = ["kind_tag_table", "tag_bijection", "unknown_tag_rejected", "header_fixed_prefix",
             "header_roundtrip", "from_record_accepts_iff", "from_record_short", "record_roundtrip",
             "record_kinds_distinguished", "chunk_roundtrip", "chunk_address_recomputed",
             "chunk_encoding_carries_no_address", "decode_truncated_header", "decode_truncated",
-            "mp_decode_stable_under_extension", "mp_roundtrip_generic",
+            "mp_decode_stable_under_extension", "message_roundtrip", "cbor_roundtrip_generic",
+            "cbor_encoding_prefix_free", "message_name_tables", "mp_roundtrip_generic",
             "mp_encoding_prefix_free"]
 RULE = ("values of all eight record kinds built from real types (chunks with 0/1/31/32/255/256/65535/65536-byte and "
         "one 4 MiB payload; scratchpads with and without signature; Vec<Transaction> of 0-4 entries with 0-3 parents and "
@@ -38,9 +39,10 @@ ASSUMPTIONS = [
     "decoders (rmp-serde, blsttc point validation, bytes) are validated by the correspondence run, not proved",
     "the recorded serde call tree (harness module rec) is normalised as documented in coq/lib/Serde.v; "
     "XorName::from_content is SHA3-256 (checked against hashlib on every decoded chunk)",
-    "Request/Response messages: every variant is sent through the two cbor4ii functions libp2p's request_response::cbor codec "
-    "consists of (its Codec type is private) and must come back equal; malformed CBOR must not panic. There is no Coq model "
-    "of CBOR: on the model side only the messages' serde trees are tied to Msgpack.mp_encode (byte-for-byte vs rmp-serde)"]
+    "Request/Response messages go through the two cbor4ii functions libp2p's request_response::cbor codec consists of (its "
+    "Codec type is private); the CBOR model (coq/lib/Cbor.v) decodes canonically (fields in declaration order, definite "
+    "lengths) -- cbor4ii's own decoder leniency and its behaviour on malformed input are validated (no panic, stable "
+    "re-encoding), not modelled"]
 
 PINNED = {"ChunkWithPayment": 0, "Chunk": 1, "Transaction": 2, "Register": 3, "RegisterWithPayment": 4,
           "Scratchpad": 5, "ScratchpadWithPayment": 6, "TransactionWithPayment": 7}
@@ -123,6 +125,57 @@ def mp_tree(t):
         return mp_len(len(items), 0x90, 16, None, 0xdc, 0xdd) + b"".join(mp_tree(x) for x in items)
     if "map" in t:
         return mp_len(len(t["map"]) // 2, 0x80, 16, None, 0xde, 0xdf) + b"".join(mp_tree(x) for x in t["map"])
+    raise ValueError(t)
+
+
+def cb_head(major, n):
+    if n < 24:
+        return bytes([major * 32 + n])
+    if n < 256:
+        return bytes([major * 32 + 24, n])
+    if n < 65536:
+        return bytes([major * 32 + 25]) + n.to_bytes(2, "big")
+    if n < 2 ** 32:
+        return bytes([major * 32 + 26]) + n.to_bytes(4, "big")
+    return bytes([major * 32 + 27]) + n.to_bytes(8, "big")
+
+
+def cbor_tree(t):
+    """RFC 8949 encoding of a recorded (named-mode) serde tree, definite lengths, shortest heads"""
+    if "b" in t:
+        return b"\xf5" if t["b"] else b"\xf4"
+    if "u" in t:
+        return cb_head(0, t["u"][1])
+    if "i" in t:
+        z = t["i"][1]
+        return cb_head(0, z) if z >= 0 else cb_head(1, -1 - z)
+    if "f32" in t:
+        return b"\xfa" + t["f32"].to_bytes(4, "big")
+    if "f64" in t:
+        return b"\xfb" + t["f64"].to_bytes(8, "big")
+    if "s" in t:
+        b = bytes.fromhex(t["s"])
+        return cb_head(3, len(b)) + b
+    if "y" in t:
+        b = bytes.fromhex(t["y"])
+        return cb_head(2, len(b)) + b
+    if "n" in t:
+        return b"\xf6"
+    if "unit" in t:
+        return b"\x80"
+    if "some" in t:
+        return cbor_tree(t["some"])
+    if "uv" in t:
+        b = bytes.fromhex(t["uv"])
+        return cb_head(3, len(b)) + b
+    if "v" in t:
+        b = bytes.fromhex(t["v"][0])
+        return b"\xa1" + cb_head(3, len(b)) + b + cbor_tree(t["v"][1])
+    if "seq" in t or "tup" in t:
+        items = t.get("seq", t.get("tup"))
+        return cb_head(4, len(items)) + b"".join(cbor_tree(x) for x in items)
+    if "map" in t:
+        return cb_head(5, len(t["map"]) // 2) + b"".join(cbor_tree(x) for x in t["map"])
     raise ValueError(t)
 
 
@@ -544,6 +597,9 @@ def oracle(c, o):
                       % (c["ty"], c["v"]["m"], o["cbor_ok"], o["cbor_rt"])))
         if not o["rmp_rt"]:
             v.append(("message-roundtrip", "%s %s does not survive rmp-serde (its serde impls are not inverse)" % (c["ty"], c["v"]["m"])))
+        if o.get("cbor") and o.get("ntree") is not None and cbor_tree(o["ntree"]).hex() != o["cbor"]:
+            v.append(("message-wire-format", "%s %s: the codec's bytes differ from the CBOR encoding (maps keyed by field name, "
+                      "externally tagged enums) of the value's serde tree" % (c["ty"], c["v"]["m"])))
         if not o["cbor_within_cap"]:
             v.append(("message-size", "%s %s encodes to %d bytes, above the codec's size cap" % (c["ty"], c["v"]["m"], o["cbor_len"])))
     elif c["op"] == "msg_decode":
@@ -638,7 +694,10 @@ def model_term(c, o):
         if o.get("tree") is None:
             return "false"
         t = c_tree(o["tree"])
-        return "wf %s && agree_encode %s %s" % (t, t, cbytes(o["rmp"]))
+        term = "wf %s && agree_encode %s %s" % (t, t, cbytes(o["rmp"]))
+        if o.get("cbor") and o.get("ntree") is not None:
+            term += " && agree_%s %s %s" % (c["ty"], c_tree(o["ntree"]), cbytes(o["cbor"]))
+        return term
     if c["op"] == "msg_decode":
         return None
     if c["op"] == "decode":
@@ -712,12 +771,17 @@ def run(ctx):
         "shapes of the stored types), hand-written, tied to the code by this run's correspondence",
         "translator tools/extract_consts.py (tools/consts.d/codec.py): RecordKind <-> u32 tables of the Serialize and "
         "Deserialize impls, RecordKind's variant list, RecordHeader::SIZE re-read from header.rs",
-        "harness/crates/c12 (tree-recording serde::Serializer, value builders), tools/props/C12.py (generator, oracle with an "
-        "independent msgpack encoder and SHA3-256, canonicaliser)"])
+        "model coq/lib/Cbor.v (cbor4ii's serde serializer, typed decoder) and coq/model/Messages.v (shapes of Request / Response "
+        "and the types they contain), tied by byte-for-byte comparison with cbor4ii::serde::to_vec on every generated message; "
+        "variant / field name tables re-read from messages*.rs, lib.rs, error.rs, header.rs, address.rs, data_payments.rs, "
+        "quoting_metrics.rs",
+        "harness/crates/c12 (tree-recording serde::Serializer, value builders), tools/props/C12.py (generator, oracle with "
+        "independent msgpack and CBOR encoders and SHA3-256, canonicaliser)"])
     binary = ctx.cargo_build("c12")
     rel = ("try_serialize_record / try_deserialize_record / RecordHeader::{try_serialize,try_deserialize,from_record} / "
            "Chunk::{serialize,deserialize} == Header.{encode_record,decode_record,header,header_try_deserialize,from_record,"
-           "decode_chunk} over Msgpack.{mp_encode,mp_decode_as}")
+           "decode_chunk} over Msgpack.{mp_encode,mp_decode_as}; cbor4ii::serde::{to_vec,from_slice} on Request/Response == "
+           "Cbor.{cbor_encode,cbor_decode_as} at Messages.{c_request,c_response}")
     if ctx.replay:
         robust_pipeline(ctx, "props/C12.v", ctx.corpus(), binary, oracle, model_term, IMPORTS, nontrivial=nontrivial, show=show,
                         relation=rel, shard_size=60)
